@@ -1654,6 +1654,357 @@ theorem setText_inv (st : St) (specs : List Spec) (h : Inv st)
     simp only [hnil, List.append_nil] at hg
     exact h.gone g hg
 
+/-! ### operations on nested lists -/
+
+/-- every rule of the list names `p` as parent rule and has `_parentStyleSheet is sheet = s` -/
+def linksAll (p : Option Nat) (s : Bool) (l : List Rule) : Bool := l.all (fun r => r.linksOK p s)
+
+theorem linksOKL_linksAll (p : Option Nat) (l : List Rule) : Rule.linksOKL p l = linksAll p false l := linksOKL_eq p l
+
+theorem linksAll_set {p : Option Nat} {s : Bool} {l : List Rule} {i : Nat} {c c0 : Rule}
+    (h : linksAll p s l = true) (h0 : l[i]? = some c0) (hid : c.id = c0.id) (hpss : c.pss = c0.pss)
+    (hpr : c.prule = c0.prule) (hk : Rule.linksOKL (some c.id) c.kids = true) :
+    linksAll p s (l.set i c) = true := by
+  unfold linksAll at *
+  rw [List.all_eq_true] at *
+  intro x hx
+  rcases List.mem_or_eq_of_mem_set hx with hx | hx
+  · exact h x hx
+  · subst hx
+    have := h c0 (List.mem_of_getElem? h0)
+    rw [linksOK_eq] at this ⊢
+    simp only [Bool.and_eq_true] at this ⊢
+    exact ⟨⟨by rw [hpss]; exact this.1.1, by rw [hpr]; exact this.1.2⟩, hk⟩
+
+theorem linksAll_setPath (p : Option Nat) (s : Bool) (rules : List Rule) (path : List Nat) (c c0 : Rule)
+    (h : linksAll p s rules = true) (h0 : atPath rules path = some c0) (hid : c.id = c0.id)
+    (hpss : c.pss = c0.pss) (hpr : c.prule = c0.prule) (hk : Rule.linksOKL (some c.id) c.kids = true) :
+    linksAll p s (setPath rules c path) = true := by
+  induction path generalizing rules p s with
+  | nil => simp [atPath] at h0
+  | cons i rest ih =>
+    cases rest with
+    | nil =>
+      simp only [atPath] at h0
+      simp only [setPath]
+      exact linksAll_set h h0 hid hpss hpr hk
+    | cons j q =>
+      simp only [atPath] at h0
+      simp only [setPath]
+      split
+      · exact h
+      · rename_i r hr
+        simp only [hr] at h0
+        have hr' : r.linksOK p s = true := (List.all_eq_true.mp h) r (List.mem_of_getElem? hr)
+        rw [linksOK_eq] at hr'
+        simp only [Bool.and_eq_true] at hr'
+        refine linksAll_set (c := { r with kids := setPath r.kids c (j :: q) }) h hr rfl rfl rfl ?_
+        rw [linksOKL_linksAll]
+        exact ih (some r.id) false r.kids (by rw [← linksOKL_linksAll]; exact hr'.2) h0
+
+theorem atPath_kidsOK (A : Kind → Bool) (rules : List Rule) (path : List Nat) (c : Rule)
+    (h : allOK A rules = true) (h0 : atPath rules path = some c) : c.kidsOK = true := by
+  induction path generalizing rules A with
+  | nil => simp [atPath] at h0
+  | cons i rest ih =>
+    cases rest with
+    | nil =>
+      simp only [atPath] at h0
+      have := (List.all_eq_true.mp h) c (List.mem_of_getElem? h0)
+      simp only [Bool.and_eq_true] at this; exact this.2
+    | cons j q =>
+      simp only [atPath] at h0
+      split at h0
+      · cases h0
+      · rename_i r hr
+        have := (List.all_eq_true.mp h) r (List.mem_of_getElem? hr)
+        simp only [Bool.and_eq_true] at this
+        have hr' := this.2
+        rw [kidsOK_eq, kidsOKL_allOK] at hr'
+        exact ih _ r.kids hr' h0
+
+theorem atPath_linksOK (p : Option Nat) (s : Bool) (rules : List Rule) (path : List Nat) (c : Rule)
+    (h : linksAll p s rules = true) (h0 : atPath rules path = some c) :
+    Rule.linksOKL (some c.id) c.kids = true := by
+  induction path generalizing rules p s with
+  | nil => simp [atPath] at h0
+  | cons i rest ih =>
+    cases rest with
+    | nil =>
+      simp only [atPath] at h0
+      have := (List.all_eq_true.mp h) c (List.mem_of_getElem? h0)
+      rw [linksOK_eq] at this
+      simp only [Bool.and_eq_true] at this; exact this.2
+    | cons j q =>
+      simp only [atPath] at h0
+      split at h0
+      · cases h0
+      · rename_i r hr
+        have := (List.all_eq_true.mp h) r (List.mem_of_getElem? hr)
+        rw [linksOK_eq] at this
+        simp only [Bool.and_eq_true] at this
+        exact ih (some r.id) false r.kids (by rw [← linksOKL_linksAll]; exact this.2) h0
+
+theorem set_self_of_getElem? {α} (l : List α) (i : Nat) (c : α) (h : l[i]? = some c) : l.set i c = l := by
+  apply List.ext_getElem?
+  intro j
+  by_cases hj : i = j
+  · subst hj; rw [List.getElem?_set_self']; simp [h]
+  · rw [List.getElem?_set_ne hj]
+
+theorem setPath_self (rules : List Rule) (path : List Nat) (c : Rule) (h0 : atPath rules path = some c) :
+    setPath rules c path = rules := by
+  induction path generalizing rules with
+  | nil => rfl
+  | cons i rest ih =>
+    cases rest with
+    | nil =>
+      simp only [atPath] at h0
+      simp only [setPath]
+      exact set_self_of_getElem? _ _ _ h0
+    | cons j q =>
+      simp only [atPath] at h0
+      simp only [setPath]
+      split
+      · rfl
+      · rename_i r hr
+        simp only [hr] at h0
+        rw [ih r.kids h0]
+        exact set_self_of_getElem? _ _ _ (by rw [hr]; cases r; rfl)
+
+theorem inv_top_allOK {st : St} (h : Inv st) : allOK (fun _ => true) st.rules = true := by
+  unfold allOK; rw [List.all_eq_true]; intro x hx; simp [h.kids x hx]
+
+theorem inv_top_linksAll {st : St} (h : Inv st) : linksAll none true st.rules = true := by
+  unfold linksAll; rw [List.all_eq_true]; exact h.links
+
+theorem allOK_top_iff {l : List Rule} (h : allOK (fun _ => true) l = true) : ∀ x ∈ l, x.kidsOK = true := by
+  intro x hx
+  have := (List.all_eq_true.mp h) x hx
+  simpa using this
+
+/-- replacing a container in the tree by one with the same header whose own list is fine keeps `Inv` -/
+theorem inv_setPath {st : St} (h : Inv st) (path : List Nat) (c c0 : Rule) (n : Nat) (extra : List Rule)
+    (h0 : atPath st.rules path = some c0) (hk : c.kind = c0.kind) (hid : c.id = c0.id) (hpss : c.pss = c0.pss)
+    (hpr : c.prule = c0.prule) (hkids : c.kidsOK = true) (hlinks : Rule.linksOKL (some c.id) c.kids = true)
+    (hextra : ∀ g ∈ extra, g.linksOK none false = true) :
+    Inv { rules := setPath st.rules c path, gone := st.gone ++ extra, next := n, raising := st.raising } := by
+  refine ⟨?_, ?_, ?_⟩
+  · exact allOK_top_iff (allOK_setPath _ _ _ _ _ (inv_top_allOK h) h0 hk hkids)
+  · have := linksAll_setPath none true _ _ _ _ (inv_top_linksAll h) h0 hid hpss hpr hlinks
+    exact List.all_eq_true.mp this
+  · intro g hg
+    rcases List.mem_append.mp hg with hg | hg
+    · exact h.gone g hg
+    · exact hextra g hg
+
+theorem cInsert_header (raising : Bool) (c r : Rule) (index : Option Int) (viaStr : Bool) :
+    (cInsert raising c r index viaStr).1.id = c.id ∧ (cInsert raising c r index viaStr).1.pss = c.pss ∧
+    (cInsert raising c r index viaStr).1.prule = c.prule := by
+  unfold cInsert
+  dsimp only
+  split
+  · exact ⟨rfl, rfl, rfl⟩
+  · split <;> exact ⟨rfl, rfl, rfl⟩
+
+theorem kid_kidsOK (r : Rule) (p : Option Nat) (s : Bool) : ({ r with prule := p, pss := s } : Rule).kidsOK = r.kidsOK := by
+  rw [kidsOK_eq, kidsOK_eq]
+
+theorem kid_linksOK {r : Rule} (cid : Nat) (h : r.linksOK none false = true) :
+    ({ r with prule := some cid, pss := false } : Rule).linksOK (some cid) false = true := by
+  rw [linksOK_eq] at *
+  simp only [Bool.and_eq_true, beq_iff_eq] at h ⊢
+  exact ⟨by simp, h.2⟩
+
+theorem cInsert_kidsOK (raising : Bool) (c r : Rule) (index : Option Int) (viaStr : Bool)
+    (hc : c.kidsOK = true) (hr : r.kidsOK = true)
+    (hreg : containerRejects c.kind r.kind = false → allowedIn c.kind r.kind = true) :
+    (cInsert raising c r index viaStr).1.kidsOK = true := by
+  unfold cInsert
+  dsimp only
+  split
+  · exact hc
+  · split
+    · exact hc
+    · rename_i idx _ hrej
+      rw [kidsOK_eq, kidsOKL_eq] at hc ⊢
+      rw [List.all_eq_true] at hc ⊢
+      intro x hx
+      rcases mem_pyInsert hx with hx | hx
+      · rw [hx]
+        simp only [Bool.and_eq_true]
+        exact ⟨hreg (by simpa using hrej), by rw [kid_kidsOK]; exact hr⟩
+      · exact hc x hx
+
+theorem cInsert_links (raising : Bool) (c r : Rule) (index : Option Int) (viaStr : Bool)
+    (hc : Rule.linksOKL (some c.id) c.kids = true) (hr : r.linksOK none false = true) :
+    Rule.linksOKL (some (cInsert raising c r index viaStr).1.id) (cInsert raising c r index viaStr).1.kids = true ∧
+    ∀ g ∈ (cInsert raising c r index viaStr).2.1, g.linksOK none false = true := by
+  have hheld : ∀ g ∈ (if viaStr = true then [] else [r]), g.linksOK none false = true := by
+    intro g hg
+    split at hg
+    · cases hg
+    · have : g = r := by simpa using hg
+      rw [this]; exact hr
+  unfold cInsert
+  dsimp only
+  split
+  · exact ⟨hc, hheld⟩
+  · split
+    · exact ⟨hc, hheld⟩
+    · refine ⟨?_, by intro g hg; cases hg⟩
+      rw [linksOKL_eq] at hc ⊢
+      rw [List.all_eq_true] at hc ⊢
+      intro x hx
+      rcases mem_pyInsert hx with hx | hx
+      · rw [hx]; exact kid_linksOK c.id hr
+      · exact hc x hx
+
+theorem nInsert_inv (st : St) (path : List Nat) (s : Spec) (index : Option Int) (viaStr : Bool) (h : Inv st)
+    (hs : viaStr = true ∨ s.kidsOK = true)
+    (hreg : ∀ c, atPath st.rules path = some c →
+      containerRejects c.kind s.kind = false → allowedIn c.kind s.kind = true) :
+    Inv (nInsert st path s index viaStr).1 := by
+  unfold nInsert
+  split
+  · exact h
+  · rename_i c hc
+    have hck := atPath_kidsOK _ _ _ _ (inv_top_allOK h) hc
+    have hcl := atPath_linksOK _ _ _ _ _ (inv_top_linksAll h) hc
+    split
+    · exact h
+    · split
+      · split
+        · exact h
+        · split
+          · exact h
+          · exact h
+          · rename_i i hi
+            have hi' := parseCand_ok hi
+            have hhead := cInsert_header st.raising c i.1 index true
+            have hl := cInsert_links st.raising c i.1 index true hcl hi'.2
+            exact inv_setPath h path _ c _ _ hc (cInsert_kind _ _ _ _ _) hhead.1 hhead.2.1 hhead.2.2
+              (cInsert_kidsOK _ _ _ _ _ hck hi'.1 (by rw [parseCand_kind hi]; exact hreg c hc)) hl.1 hl.2
+      · rename_i hv
+        have hsk : s.kidsOK = true := by
+          rcases hs with hs | hs
+          · exact absurd hs hv
+          · exact hs
+        have hhead := cInsert_header st.raising c (Spec.inst none st.next s).1 index false
+        have hl := cInsert_links st.raising c (Spec.inst none st.next s).1 index false hcl (inst_linksOK none st.next s)
+        exact inv_setPath h path _ c _ _ hc (cInsert_kind _ _ _ _ _) hhead.1 hhead.2.1 hhead.2.2
+          (cInsert_kidsOK _ _ _ _ _ hck (inst_kidsOK none st.next s hsk) (by rw [inst_kind]; exact hreg c hc)) hl.1 hl.2
+
+theorem nDelete_inv (st : St) (path : List Nat) (i : Int) (h : Inv st) : Inv (nDelete st path i).1 := by
+  unfold nDelete
+  split
+  · exact h
+  · rename_i c hc
+    have hck := atPath_kidsOK _ _ _ _ (inv_top_allOK h) hc
+    have hcl := atPath_linksOK _ _ _ _ _ (inv_top_linksAll h) hc
+    split
+    · exact h
+    · unfold cDelete
+      split
+      · have := inv_setPath h path c c st.next [] hc rfl rfl rfl rfl hck hcl (by intro g hg; cases hg)
+        simpa using this
+      · rename_i n _
+        split
+        · have := inv_setPath h path c c st.next [] hc rfl rfl rfl rfl hck hcl (by intro g hg; cases hg)
+          simpa using this
+        · rename_i k hk
+          have hsub : (c.kids.eraseIdx n).Sublist c.kids := List.eraseIdx_sublist _ _
+          refine inv_setPath h path _ c st.next _ hc rfl rfl rfl rfl ?_ ?_ ?_
+          · rw [kidsOK_eq, kidsOKL_eq] at hck ⊢
+            rw [List.all_eq_true] at hck ⊢
+            intro x hx; exact hck x (hsub.subset hx)
+          · rw [linksOKL_eq] at hcl ⊢
+            rw [List.all_eq_true] at hcl ⊢
+            intro x hx; exact hcl x (hsub.subset hx)
+          · intro g hg
+            have : g = { k with prule := none } := by simpa using hg
+            rw [this]
+            rw [linksOKL_eq, List.all_eq_true] at hcl
+            have hkl := hcl k (List.mem_of_getElem? hk)
+            rw [linksOK_eq] at hkl ⊢
+            simp only [Bool.and_eq_true, beq_iff_eq] at hkl ⊢
+            exact ⟨by simp [hkl.1.1], hkl.2⟩
+
+theorem nSetText_inv (st : St) (path : List Nat) (kids : List Spec) (h : Inv st)
+    (hreg : ∀ c, atPath st.rules path = some c → isContainer c = true → c.kids ≠ [] →
+      (cSetText st.raising (nsDict st.rules) st.next c kids).2.2.2 ≠ .none) :
+    Inv (nSetText st path kids).1 := by
+  unfold nSetText
+  split
+  · exact h
+  · rename_i c hc
+    have hck := atPath_kidsOK _ _ _ _ (inv_top_allOK h) hc
+    have hcl := atPath_linksOK _ _ _ _ _ (inv_top_linksAll h) hc
+    split
+    · exact h
+    · rename_i hcont
+      have hcont' : isContainer c = true := by simpa using hcont
+      have hreg' := hreg c hc hcont'
+      unfold cSetText at hreg' ⊢
+      dsimp only at hreg' ⊢
+      split
+      · have := inv_setPath h path c c st.next [] hc rfl rfl rfl rfl hck hcl (by intro g hg; cases hg)
+        simpa using this
+      · rename_i ks hks
+        simp only [hks] at hreg'
+        have hnil : c.kids = [] := by
+          cases hk : c.kids with
+          | nil => rfl
+          | cons a t => exact absurd rfl (hreg' (by simp [hk]))
+        have hnew : Rule.kidsOKL c.kind ks.1 = true ∧ Rule.linksOKL (some c.id) ks.1 = true := by
+          split at hks
+          · rename_i hm
+            rw [hm]; exact parseMediaKids_ok _ _ _ _ _ ks hks
+          · rename_i hm
+            have hp : c.kind = .page := by
+              unfold isContainer at hcont'
+              simp only [Bool.or_eq_true, decide_eq_true_eq] at hcont'
+              rcases hcont' with h' | h'
+              · exact absurd h' hm
+              · exact h'
+            rw [hp]; exact parsePageKids_ok _ _ _ _ ks hks
+        refine inv_setPath h path _ c _ _ hc rfl rfl rfl rfl ?_ hnew.2 ?_
+        · rw [kidsOK_eq]; exact hnew.1
+        · intro g hg; rw [hnil] at hg; cases hg
+
+theorem validB_iff (st : St) : validB st = true ↔ Valid st := by
+  unfold validB
+  simp only [Bool.and_eq_true, decide_eq_true_eq, List.all_eq_true]
+  constructor
+  · rintro ⟨⟨h1, h2⟩, h3⟩
+    exact ⟨h1, fun r hr => (h2 r hr).1, fun r hr => (h2 r hr).2, h3⟩
+  · intro h
+    exact ⟨⟨h.top, fun r hr => ⟨h.kids r hr, h.links r hr⟩⟩, h.gone⟩
+
+/-- in a valid state the public getter `parentStyleSheet` answers the sheet for every rule of the sheet's list and
+for every rule directly inside one of them -/
+theorem derivedPss_depth1 (st : St) (h : Valid st) :
+    (∀ r ∈ st.rules, derivedPss none r = true) ∧
+    (∀ c ∈ st.rules, ∀ k ∈ c.kids, derivedPss (some c) k = true) := by
+  constructor
+  · intro r hr
+    have := h.links r hr
+    rw [linksOK_eq] at this
+    simp only [Bool.and_eq_true, beq_iff_eq] at this
+    unfold derivedPss
+    rw [this.1.2]; exact this.1.1
+  · intro c hc k hk
+    have := h.links c hc
+    rw [linksOK_eq] at this
+    simp only [Bool.and_eq_true, beq_iff_eq] at this
+    have hkl := this.2
+    rw [linksOKL_eq, List.all_eq_true] at hkl
+    have hk' := hkl k hk
+    rw [linksOK_eq] at hk'
+    simp only [Bool.and_eq_true, beq_iff_eq] at hk'
+    unfold derivedPss
+    rw [hk'.1.2]; exact this.1.1
+
 /-! ## rule descriptions used by the witnesses in `Props/C09.lean` -/
 namespace Wit
 def commentS : Spec := ⟨.comment, [], [], [], [], []⟩
